@@ -294,8 +294,9 @@ PROPS["C14"] = dict(
                 "get_links_for_node. Posts are over the whole view: touched keys change as specified and an arbitrary other key of every registry is unchanged. "
                 "Bounded: random edit histories on real models behind a run-time checker of all views (name lists, counts, typed iterators, to_graph, usage).",
     trusted_base=["OrderedDict / OrderedSet have set / map semantics", "usage sets are abstracted as membership predicate + cardinality (contracts/c14_registry.py:USet)"],
-    not_decided=["add_junction / add_tank / add_pipe / add_pump / add_valve / add_pattern / add_curve / add_source bodies, to_graph, describe: bounded (edit histories) only",
-                 "SourceRegistry.__delitem__ and the element setters that move pattern / curve usage (vol_curve_name, pump_curve_name, speed pattern): bounded only"],
+    not_decided=["add_junction / add_tank / add_pipe / add_pump / add_valve / add_curve / add_source bodies, to_graph, describe: bounded (edit histories) only",
+                 "SourceRegistry.__delitem__ and the setters that move pattern usage (speed pattern, demand / head patterns): bounded only "
+                 "(the curve setters vol_curve_name / pump_curve_name / headloss_curve_name and PatternRegistry.add_pattern are under contract)"],
     assumptions=["names are non-empty strings; distinct declared names are pairwise different (aliasing cases are separate cases)"],
     rule="bounded: random histories; distinct = distinct operation sequences",
 )
@@ -348,3 +349,9 @@ PROPS["C16"]["explanation"] += _COMPANION % "C16.fault_injection (solver failure
 for _p in ("C01", "C02", "C05", "C08", "C10", "C14"):
     PROPS[_p]["explanation"] += (" A case whose proof is undecided because the code left the subset the stubs / loop specifications cover is also attacked by sampling its precondition "
                                  "on the real code (a real failing input is a violation; no failing input leaves it undecided).")
+
+PROPS["C14"]["explanation"] += (' Also under contract: the curve setters of head pumps, general purpose valves and tanks (the new curve records the element under exactly the record its removal releases; the old curve no longer does) and PatternRegistry.add_pattern (every registered pattern runs on the model clock; a taken name is refused and nothing changes).')
+PROPS["C05"]["explanation"] += (' Also under contract (enumerated in full over control class x priority x position of the setting action): WNTRSimulator._get_valve_controls - the status-ACTIVE companion of a setting control keeps the class, condition and priority of the user control; PRV / PSV / FCV get their close (highest priority) / open / active (lowest) controls after the solve and the no-source opening as a feasibility control. save_results reports the status of a link in a cut-off part as its status; Pipe.status has a check-valve row.')
+PROPS["C15"]["explanation"] += (' Also under contract: expression.get_vars / get_params / get_floats / _collect_leaves (exactly the leaves under the expression object\'s own last node, also after the object was extended into a longer expression sharing its operator list).')
+PROPS["C03"]["explanation"] += (' Also under contract: _EpanetRule.generate_control for every premise list of up to four premises joined by AND / OR - the condition tree read has the truth table of EPANET\'s left-to-right premise evaluation (rules.c, evalpremises; stated in the contract, an assumption on the external engine checked by the differential on an INP text with such rules).')
+PROPS["C01"]["explanation"] += (' PatternRegistry.add_pattern: every registered pattern runs on the model clock (also a Pattern object built with time options of its own).')
